@@ -33,7 +33,7 @@ A_VIEWS = 'page/header views into the map are uninterpreted functions of (bytes,
 A_SEQ = 'sequential view of Mutex/RwLock (prelude/sync.rs): a lock yields the value current at that call, locks are never poisoned'
 
 PROPS['C12'] = dict(
-    bounded_quick=[('header', 'that the state behind the intact header is COMPLETE (its pages were not recycled by the newest commit) needs the tree layer and the whole commit path, outside the verifier\'s reach as one argument; the oracle damages one header page of files with 0..3 commits and requires contents, DB::check() and a further commit')],
+    bounded_quick=[('meta', 'single-byte damage of a header record changes its checksum (all offsets, all bit flips, on the real hash)'), ('header', 'that the state behind the intact header is COMPLETE (its pages were not recycled by the newest commit) needs the tree layer and the whole commit path, outside the verifier\'s reach as one argument; the oracle damages one header page of files with 0..3 commits and requires contents, DB::check() and a further commit')],
     level='proof',
     composition='Verus lemmas L4: lemma_single_byte_damage_detected / lemma_hash_field_damage_detected (meta unit, from the proved FNV-1a sensitivity lemmas), lemma_fallback_to_intact_slot / lemma_newest_wins (db unit)',
     units=['meta', 'db', 'freelist', 'open', 'commit', 'nodeio', 'txn'],
@@ -86,6 +86,7 @@ PROPS['C02'] = dict(
     not_covered=['rebalance/spill/merge of the tree layer', 'that the pages a commit allocates are disjoint from the old tree is L2 (unit lemmas) + T1/F1, joined to L1 on paper', 'the first commit on a legacy-format (<= 0.10) file'],
 )
 PROPS['C11'] = dict(
+    bounded_quick=[('commit', 'every I/O call of real commits fails in turn (error, short write with and without a following error, failed extension) on the real crate, followed by further transactions and a reopen: the executable statement of C11, run on every check and not only when unit commit is undecided')],
     level='proof',
     units=['commit', 'freelist', 'open', 'nodeio', 'txn', 'bucketcommit'],
     explanation='I/O errors in commit: every seek/write_all/flush/sync_all/metadata/resize in write_data may return Err in the stand-in; the `?` on each is the proof '
@@ -98,6 +99,7 @@ PROPS['C11'] = dict(
 )
 
 PROPS['C03'] = dict(
+    bounded_quick=[('snapshot', 'single-threaded interleavings of readers of different ages with committing and rolling-back writers, every reader re-verified in full after every step, on the real crate: the executable statement of C03, run on every check'), ('freelist', 'Freelist::release / free / allocate against a reference model on small grids')],
     level='proof',
     composition='Verus lemmas L2 (contracts/lemmas.vtmpl: lemma_begin_reader, lemma_end_reader, lemma_commit) over an abstract state whose transitions are written with the spec functions of the code contracts; the identification of each transition with the corresponding function postcondition is by reading (same spec fns)',
     units=['txn', 'freelist', 'commit', 'lemmas', 'nodeio', 'open', 'bucketops', 'bucketcommit'],
@@ -113,6 +115,7 @@ PROPS['C03'] = dict(
 )
 
 PROPS['C06'] = dict(
+    bounded_quick=[('history', 'seeded histories with rollbacks and refused calls against a reference map (a refused call and an abandoned transaction leave no trace), on the real crate, on every check'), ('header', 'opening an existing file (also one with a damaged header page), reading it and closing it leaves the file byte-identical')],
     level='proof',
     units=['guards', 'commit', 'txn', 'open', 'bucketops'],
     census='ReadOnlyTx',
